@@ -171,6 +171,21 @@ class Ctx:
             ms = _re.findall(r"Matched (\d+) suppressions", err)
             res["notes"]["tsan_suppressions_matched"] = ms[-1] if ms else "0"
             reports = mine
+        if kind == "memcheck":
+            # same attribution rule for valgrind: a report whose innermost frame is inside a dependency (sled compares
+            # inline IVec values that contain padding bytes -- a known benign memcheck report) is listed, not alarmed.
+            # What this leg is after is an uninitialised / out-of-bounds read of an FFI output buffer, which shows up
+            # with the innermost frame in rln's ffi.rs or in the harness code reading the buffer.
+            def innermost(r):
+                for ln in r.splitlines():
+                    if " at 0x" in ln:
+                        return ln
+                return ""
+            dep = ("sled::", "<sled", "crossbeam", "rayon", "parking_lot", "ark_", "<ark", "num_bigint", "hashbrown")
+            mine = [r for r in reports if not any(d in innermost(r) for d in dep)]
+            res["notes"]["memcheck_reports_total"] = len(reports)
+            res["notes"]["memcheck_reports_in_dependencies_only"] = sorted(set(innermost(r).split(": ", 1)[-1][:100] for r in reports if r not in mine))[:10]
+            reports = mine
         for rtxt in reports[:5]:
             first = rtxt.splitlines()[0]
             m = re.search(r"(AddressSanitizer|ThreadSanitizer|LeakSanitizer): ([a-zA-Z\- ]+)", first)
